@@ -159,6 +159,8 @@ func (c *FnCtx) ghostIntrinsic(fr *Frame, st *State, fn *ssa.Function, args []*T
 		return []*Term{ts.Eq(args[0], args[1])}, true
 	case "verifSameVal": // equality of two values (maps by identity)
 		return []*Term{ts.Eq(args[0], args[1])}, true
+	case "verifSameLeaves": // equality of two leaf lists as sequences
+		return []*Term{ts.Eq(args[0], args[1])}, true
 	case "verifSeqEq": // equality of two slices as sequences of values (maps compared by identity)
 		return []*Term{ts.Eq(args[0], args[1])}, true
 	case "verifRangeIndex": // index of the element the slice-range loop with the given ordinal handled last (-1 before the first)
